@@ -7,6 +7,7 @@ pinned (unpatched) variant, and non-vacuity examples.
 is_iwa_file, IWAFile.from_buffer): each returns or raises an arbitrary exception.
 -/
 import NumbersModel.Lemmas.Loader
+import NumbersModel.Lemmas.TrLoad
 namespace NumbersModel.Props.C17
 open NumbersModel NumbersModel.Loader
 
@@ -174,5 +175,87 @@ example : openDocument fixed false healthy (fun _ => (.error .KeyError : PyM Nat
 example : openDocument fixed true healthy (fun _ => (.error .KeyError : PyM Nat)) = .error .FileFormatError := by decide
 example : openDocument fixed true healthy (fun _ => (.error .UnsupportedError : PyM Nat)) = .error .UnsupportedError := by decide
 example : openDocument fixed true healthy (fun st => (.ok st.2.1 : PyM Nat)) = .ok 2 := by decide
+
+/-! ### the clauses over the definitions REGENERATED FROM THE SOURCE (`Gen/TrLoad.lean`, harness/py2lean.py group `Load`)
+
+`Gen.T.load`, `Gen.T.iwork_open`, `Gen.T.open_body`, `Gen.T.document_version`, `Gen.T.read_objects_from_zipfile`,
+`Gen.T.read_objects_from_package`, `Gen.T.store_blob`, `Gen.T.open_zipfile` are translated statement by statement from
+`ObjectStore.__init__` / `IWork.open` / `_open` / `document_version` / `_read_objects_from_zipfile` /
+`_read_objects_from_package` / `_store_blob` / `_open_zipfile` on every check run (`try / except X as e: raise Y from e` is a
+match on the outcome with the classes as written); every call that leaves the library is a field of the same `Ext`. -/
+namespace Src
+open NumbersModel.TrLoad
+
+/-- the translated `ObjectStore.__init__` IS the model's `load`, for every behaviour of the externals (what it leaves in
+    `_max_id` / the handler, reported as (`_max_id`, distinct identifiers, distinct file names)). -/
+theorem src_load_eq_model (x : Ext) : (Gen.T.load x ()).map report = load fixed x := load_eq_model x
+
+/-- the translated `IWork.open` IS the model's translation boundary. -/
+theorem src_open_eq_model (x : Ext) : Gen.T.iwork_open x () {} = withUnit (open_ fixed x) := iwork_open_eq_model x
+
+/-- the translated `_store_blob`, `_read_objects_from_zipfile` (every recursion budget), `_read_objects_from_package`,
+    `document_version` (both forms), `_open`, `_open_zipfile` are the model's functions. -/
+theorem src_stages_eq_model (x : Ext) :
+    (∀ name blob st, Gen.T.store_blob x name blob st = withUnit (storeBlob fixed x name blob st)) ∧
+    (∀ fuel z st, Gen.T.read_objects_from_zipfile x fuel z st = withUnit (readZip fixed x fuel z st)) ∧
+    (∀ fuel steps st, Gen.T.read_objects_from_package x (fuel + 1) steps st = withUnit (readPackage fixed x steps st)) ∧
+    (∀ zipf, Gen.T.document_version x (some true) zipf = documentVersion x none) ∧
+    (∀ z, Gen.T.document_version x (some false) (some z) = documentVersion x (some z)) ∧
+    Gen.T.open_body x () {} = withUnit (openBody fixed x) ∧
+    (∀ r, Gen.T.open_zipfile r = openZipfile r) :=
+  ⟨store_blob_eq_model x, read_objects_from_zipfile_eq_model x, read_objects_from_package_eq_model x,
+   document_version_package_eq_model x, document_version_zip_eq_model x, open_body_eq_model x, open_zipfile_eq_model⟩
+
+/-- MAIN THEOREM over the source as it is now: whatever the externals do, the translated `ObjectStore.__init__` returns, or
+    raises FileError / FileFormatError / UnsupportedError, or re-raises an escalated Warning. -/
+theorem src_load_error_closed (x : Ext) :
+    (∃ r, Gen.T.load x () = .ok r) ∨
+    (∃ e, Gen.T.load x () = .error e ∧
+      (e = .FileError ∨ e = .FileFormatError ∨ e = .UnsupportedError ∨ x.isWarning e = true)) := by
+  cases h : Gen.T.load x () with
+  | ok r => exact Or.inl ⟨r, rfl⟩
+  | error e =>
+    have hm : load fixed x = .error e := by rw [← load_eq_model, h]; rfl
+    rcases load_error_closed x with ⟨r, hr⟩ | ⟨e', he', hc⟩
+    · rw [hm] at hr; cases hr
+    · rw [hm] at he'; cases he'; exact Or.inr ⟨e, rfl, hc⟩
+
+/-- the boundary statement for the translated `IWork.open` alone. -/
+theorem src_open_error_closed (x : Ext) :
+    (∃ st, Gen.T.iwork_open x () {} = .ok ((), st)) ∨
+    (∃ e, Gen.T.iwork_open x () {} = .error e ∧ (isLibraryError e = true ∨ x.isWarning e = true)) := by
+  rw [iwork_open_eq_model]
+  rcases open_error_closed x with ⟨st, hs⟩ | ⟨e, he, hc⟩
+  · exact Or.inl ⟨st, by rw [hs]; rfl⟩
+  · exact Or.inr ⟨e, by rw [he]; rfl, hc⟩
+
+/-- per stage, over the translated `_store_blob`: once `is_iwa_file` has answered, the outcome is success or FileFormatError. -/
+theorem src_store_blob_closed (x : Ext) (name : Text) (blob : Nat) (st : Store) (b : Bool)
+    (hs : x.sniff blob = .ok b) :
+    (∃ st', Gen.T.store_blob x name blob st = .ok ((), st')) ∨
+      Gen.T.store_blob x name blob st = .error .FileFormatError := by
+  rw [store_blob_eq_model]
+  rcases store_blob_closed x name blob st b hs with ⟨st', h⟩ | h
+  · exact Or.inl ⟨st', by rw [h]; rfl⟩
+  · exact Or.inr (by rw [h]; rfl)
+
+/-- per stage, over the translated `_open_zipfile`: BadZipFile (only) is translated. -/
+theorem src_open_zipfile_translates (r : PyM Nat) :
+    Gen.T.open_zipfile r = match r with
+      | .ok z => .ok z
+      | .error e => if e = .BadZipFile then .error .FileFormatError else .error e := by
+  rw [open_zipfile_eq_model]; exact openZipfile_spec r
+
+/-- non-vacuity: the translated definitions run on the healthy document and on the damaged variants of it -/
+example : (Gen.T.load healthy ()).map report = .ok (3000000, 2, 4) := by decide
+example : Gen.T.load badCrc () = .error .FileFormatError := by decide
+example : Gen.T.load emptyIwa () = .error .FileFormatError := by decide
+example : Gen.T.load noObjects () = .error .FileFormatError := by decide
+example : Gen.T.load nameTooLong () = .error .FileError := by decide
+example : Gen.T.load encrypted () = .error .UnsupportedError := by decide
+example : Gen.T.load { healthy with versionOk := fun _ => false, warn := fun _ => .error (.Other "RuntimeWarning") } ()
+    = .error (.Other "RuntimeWarning") := by decide
+
+end Src
 
 end NumbersModel.Props.C17
